@@ -21,7 +21,7 @@ RULE = (
     "{neighbors(filterfunc), find_links(filterfunc), bft/ibft, dft_recursive/idft_recursive, "
     "dft_iterative/idft_iterative (ff_via, ff_result), bfs, dfs_recursive, dfs_iterative, basic_render(rfunc, sort), "
     "render_to_plantuml_src(user_render_func), make_pyvis_net and pyvis_render_customizable(rvfunc, refunc), "
-    "nrpickler.dumps}, optionally a universe whose first 260 members are isolated fillers (then the first, middle and last fault point of each callback), also with RE-ENTRANT callbacks (the callback itself renders / queries an overlapping universe) and on graphs containing a link that has lost an end.  Fault enumeration: a clean run with counting wrappers measures N_c invocations of each "
+    "nrpickler.dumps}, a sort key whose values cannot be ordered (the call fails without any callback raising), optionally a universe whose first 260 members are isolated fillers (then the first, middle and last fault point of each callback), also with RE-ENTRANT callbacks (the callback itself renders / queries an overlapping universe) and on graphs containing a link that has lost an end.  Fault enumeration: a clean run with counting wrappers measures N_c invocations of each "
     "callback; then for every callback and every k in 1..N_c the call is repeated with a wrapper raising a private "
     "exception at the k-th invocation.  Oracle: the deep snapshot (attribute-name set and canonicalised values of "
     "every vertex, link, universe and law set via vars()) after the clean run and after every faulted run equals "
@@ -39,7 +39,7 @@ LEVEL_TEXT = (
     "every read-only entry point, caching on and off) are enumerated and the whole object state is compared after "
     "each; worlds themselves are sampled by Hypothesis."
 )
-LEVEL_NOTE = "Trusts the vars()-based deep snapshot. The set of entry points is the one named in the statement. Fault = an exception raised by the callback; other fault kinds (e.g. KeyboardInterrupt) are not injected."
+LEVEL_NOTE = "Trusts the vars()-based deep snapshot. The set of entry points is the one named in the statement. Fault = an exception raised by the callback: at odd invocation indices an Exception subclass, at even ones a class derived from BaseException only (like KeyboardInterrupt)."
 TECHNIQUE = "exhaustive per-case fault-point enumeration (k-th-invocation raising wrappers) over Hypothesis-generated worlds, with a deep-state oracle"
 
 
@@ -66,6 +66,10 @@ STRUCTURAL = {"_links", "_vertices", "_universes", "_uid", "_laws", "_applies_to
 
 class Boom(Exception):
     """The injected fault."""
+
+
+class BoomBase(BaseException):
+    """The injected fault, derived from BaseException only (as KeyboardInterrupt or a cancellation is)."""
 
 
 def deep_snapshot(objs):
@@ -161,6 +165,9 @@ def entries(vs, ls, u, start, sub):
         ("render_to_plantuml_src", lambda f: plantuml.render_to_plantuml_src(u, opts()), None),
         ("make_pyvis_net()", lambda f: len(pyvis.make_pyvis_net(u).nodes), None),
         ("basic_render()", lambda f: plaintext.basic_render(u, rfunc=title), None),
+        # a sort key that never raises but whose values cannot be ordered against each other (ints and strs): the call
+        # fails inside the library's own sorting - it ends abnormally without any callback having raised
+        ("basic_render(sort: unorderable keys)", lambda f: plaintext.basic_render(u, rfunc=title, sort=lambda v: (v.i if v.i % 2 else "s%d" % v.i)), None),
         ("nrpickler.dumps", lambda f: len(nrpickler.dumps(u)) > 0, None),
         ("bfs", lambda f: [vi.get(id(B.bfs(u, start, "i", k))) for k in (0, 3, 99)], None),
         ("dfs_recursive", lambda f: [vi.get(id(D.dfs_recursive(u, start, "i", k))) for k in (0, 3, 99)], None),
@@ -189,7 +196,7 @@ def _in_other_thread(fn):
 def outcome(call, f):
     try:
         return ("ok", call(f))
-    except Boom:
+    except (Boom, BoomBase):
         return ("boom", None)
     except RecursionError:
         return ("exc", "RecursionError")
@@ -246,7 +253,7 @@ def check_case(case):
                     # a transient fault: raises at its k-th invocation while armed, well-behaved afterwards
                     _c[0] += 1
                     if _armed[0] and _c[0] == _k:
-                        raise Boom()
+                        raise (BoomBase() if _k % 2 == 0 else Boom())
                     return _good(*a)
 
                 res = outcome(call, faulty)
